@@ -239,6 +239,7 @@ func constArgsAll(x *e2Ctx, args []ssa.Value, d int) string {
 }
 
 type e2Ctx struct {
+	acc map[ssa.Value]bool // append-built result of an encoder without Lexer
 	// rendering options used by E6 (builders): name φs by their variable, show call arguments
 	namedPhis, callArgs, fullArgs bool
 	c                             *Ctx
@@ -533,6 +534,31 @@ func (x *e2Ctx) callOps(cl *ssa.Call) []*e2Node {
 	cc := cl.Common()
 	sf := cc.StaticCallee()
 	pos := x.c.P.ipos(cl)
+	// an encoder that builds its result in a local []byte by appends (no Lexer): the accumulator is the write cursor
+	if x.acc != nil {
+		if isBuiltinCall(cc, "append") && len(cc.Args) == 2 && x.acc[cc.Args[0]] {
+			if vs := varargValues(cc.Args[1]); len(vs) > 0 {
+				if sl, ok := cc.Args[1].(*ssa.Slice); ok {
+					if al, ok := sl.X.(*ssa.Alloc); ok && al.Comment == "varargs" {
+						var out []*e2Node
+						for _, v := range varargsInOrder(al) {
+							f, xf := x.srcOf(v)
+							out = append(out, &e2Node{kind: "slot", w: "1", f: f, x: xf, pos: pos})
+						}
+						return out
+					}
+				}
+			}
+			w, f, xf := x.bytesSrc(cc.Args[1])
+			return []*e2Node{{kind: "slot", w: w, f: f, x: xf, pos: pos}}
+		}
+		if sf != nil && len(cc.Args) == 3 && x.acc[cc.Args[1]] {
+			if w, ok := map[string]string{"(encoding/binary.bigEndian).AppendUint16": "2", "(encoding/binary.bigEndian).AppendUint32": "4", "(encoding/binary.bigEndian).AppendUint64": "8"}[funcKey(sf)]; ok {
+				f, xf := x.srcOf(cc.Args[2])
+				return []*e2Node{{kind: "slot", w: w, f: f, x: xf, pos: pos}}
+			}
+		}
+	}
 	if sf == nil {
 		return nil
 	}
@@ -1935,6 +1961,15 @@ func e2Extract(c *Ctx, f *ssa.Function, enc bool) ([]*e2Node, []string) {
 			}
 		}
 	})
+	if len(x.lex) == 0 && enc {
+		if acc := appendAccumulator(f); acc != nil {
+			x.acc = acc
+			ns := e2Simplify(x.walk(f.Blocks[0], nil))
+			x.resolveLocals(ns)
+			e2Canon(ns)
+			return ns, x.undec
+		}
+	}
 	if len(x.lex) == 0 {
 		return x.noLexer(f, enc), x.undec
 	}
@@ -1997,6 +2032,9 @@ func (x *e2Ctx) noLexer(f *ssa.Function, enc bool) []*e2Node {
 	// (b, err := copyIPv4(data); *i = IP(b); return err): the helper's schema, with what leaves it through its k-th
 	// result continued in this function, and the error it returns classified inside the helper
 	if ns, ok := x.bytesHelper(f, prm); ok {
+		return ns
+	}
+	if ns, ok := x.manualPrefix(f, prm); ok {
 		return ns
 	}
 	fld, xf := x.dstOf(prm)
@@ -2342,4 +2380,166 @@ func splitDecision(s string) (string, string, string, bool) {
 		return "", "", "", false
 	}
 	return s[1:end], inner[:i], inner[i+3:], true
+}
+
+// varargsInOrder: the values stored into a variadic argument array, by index
+func varargsInOrder(al *ssa.Alloc) []ssa.Value {
+	items := map[int64]ssa.Value{}
+	for _, ref := range *al.Referrers() {
+		if ia, ok := ref.(*ssa.IndexAddr); ok {
+			k, _ := intConst(ia.Index)
+			for _, r2 := range *ia.Referrers() {
+				if st, ok := r2.(*ssa.Store); ok && st.Addr == ssa.Value(ia) {
+					items[k] = st.Val
+				}
+			}
+		}
+	}
+	var out []ssa.Value
+	for i := int64(0); i < int64(len(items)); i++ {
+		out = append(out, items[i])
+	}
+	return out
+}
+
+// appendAccumulator: the encoder returns (on every path) a local []byte that starts empty and is only ever extended by
+// append / binary.BigEndian.AppendUintN inside the function, with at least one such extension in a loop: the set of SSA
+// values that make up that accumulator. nil when the function is not of this form.
+func appendAccumulator(f *ssa.Function) map[ssa.Value]bool {
+	acc := map[ssa.Value]bool{}
+	ok := true
+	inLoop := false
+	var visit func(v ssa.Value, d int)
+	visit = func(v ssa.Value, d int) {
+		if !ok || acc[v] || d > 24 {
+			return
+		}
+		switch t := v.(type) {
+		case *ssa.Const:
+			if t.Value != nil {
+				ok = false
+			}
+			acc[v] = true
+		case *ssa.MakeSlice:
+			if k, isK := intConst(t.Len); !isK || k != 0 {
+				ok = false
+			}
+			acc[v] = true
+		case *ssa.Phi:
+			acc[v] = true
+			for _, e := range t.Edges {
+				visit(e, d+1)
+			}
+		case *ssa.Call:
+			switch {
+			case isBuiltinCall(t.Common(), "append") && len(t.Call.Args) == 2:
+				acc[v] = true
+				inLoop = inLoop || inCycle(t.Block())
+				visit(t.Call.Args[0], d+1)
+			case t.Call.StaticCallee() != nil && strings.HasPrefix(funcKey(t.Call.StaticCallee()), "(encoding/binary.bigEndian).AppendUint") && len(t.Call.Args) == 3:
+				acc[v] = true
+				inLoop = inLoop || inCycle(t.Block())
+				visit(t.Call.Args[1], d+1)
+			default:
+				ok = false
+			}
+		default:
+			ok = false
+		}
+	}
+	rets := returnsOf(f)
+	if len(rets) == 0 {
+		return nil
+	}
+	for _, r := range rets {
+		if len(r.Results) != 1 {
+			return nil
+		}
+		visit(r.Results[0], 0)
+	}
+	if !ok || !inLoop {
+		return nil
+	}
+	return acc
+}
+
+// manualPrefix: a decoder without a Lexer that peels fixed-size big-endian fields off the front of its parameter with
+// constant slice bounds and hands the remainder on: p[:2] → binary.BigEndian.Uint16, p[2:] → nested decoder. The pieces
+// must tile the parameter from offset 0 with the last one open-ended.
+func (x *e2Ctx) manualPrefix(f *ssa.Function, prm *ssa.Parameter) ([]*e2Node, bool) {
+	type piece struct {
+		lo, hi int64 // hi = -1: open end
+		sl     *ssa.Slice
+	}
+	var ps []piece
+	for _, ref := range *prm.Referrers() {
+		switch t := ref.(type) {
+		case *ssa.Slice:
+			if t.X != ssa.Value(prm) || t.Max != nil {
+				return nil, false
+			}
+			p := piece{0, -1, t}
+			if t.Low != nil {
+				k, ok := intConst(t.Low)
+				if !ok {
+					return nil, false
+				}
+				p.lo = k
+			}
+			if t.High != nil {
+				k, ok := intConst(t.High)
+				if !ok {
+					return nil, false
+				}
+				p.hi = k
+			}
+			ps = append(ps, p)
+		case *ssa.DebugRef:
+		case *ssa.Call:
+			if !isBuiltinCall(t.Common(), "len") {
+				return nil, false
+			}
+		default:
+			return nil, false
+		}
+	}
+	if len(ps) < 2 {
+		return nil, false
+	}
+	sort.Slice(ps, func(i, j int) bool { return ps[i].lo < ps[j].lo })
+	if ps[0].lo != 0 || ps[len(ps)-1].hi != -1 {
+		return nil, false
+	}
+	var out []*e2Node
+	for i, p := range ps {
+		if i+1 < len(ps) {
+			if p.hi != ps[i+1].lo {
+				return nil, false
+			}
+			// consumed by binary.BigEndian.UintN of exactly that width
+			var rd *ssa.Call
+			for _, ref := range *p.sl.Referrers() {
+				if cl, ok := ref.(*ssa.Call); ok && cl.Call.StaticCallee() != nil {
+					if w, ok := map[string]int64{"(encoding/binary.bigEndian).Uint16": 2, "(encoding/binary.bigEndian).Uint32": 4, "(encoding/binary.bigEndian).Uint64": 8}[funcKey(cl.Call.StaticCallee())]; ok && w == p.hi-p.lo {
+						rd = cl
+					}
+				}
+			}
+			if rd == nil {
+				return nil, false
+			}
+			fld, xf := x.dstOf(rd)
+			out = append(out, &e2Node{kind: "slot", w: fmt.Sprint(p.hi - p.lo), f: fld, x: xf, pos: x.c.P.ipos(rd)})
+			continue
+		}
+		fld, xf := x.dstOf(p.sl)
+		out = append(out, &e2Node{kind: "slot", w: "rest", f: fld, x: xf, pos: x.c.P.ipos(p.sl)})
+	}
+	note := ""
+	for _, r := range returnsOf(f) {
+		if n := x.retNode(r); n.kind == "ret" {
+			note = n.note
+		}
+	}
+	return append(out, &e2Node{kind: "ret", note: note}), true
 }
